@@ -16,6 +16,20 @@ def check(cd, tree, extra):
     canon = from_entity(cd, x)
     om = OffsetMap()
     expected = ref_encode(cd, canon, om)
+    # timestamps are handed to the encoder in a DST-observing zone half of the time (the instant, hence the wire value, is
+    # the same; the generated values include both "fold twins" of repeated wall-clock times and both sides of offset changes)
+    zone = ("Europe/Paris", "America/New_York", "Australia/Lord_Howe", None, None, None)[len(expected) % 6]
+    if zone:
+        from .c01 import _rezone
+
+        x = _rezone(x, zone)
+    comp = K.dst_companion(x)
+    if comp is not None:
+        _z, x, mirrored = comp  # encode the mirror image first (other fold twin / other offset on the same local day)
+        try:
+            K.encode(cd.cls, mirrored)
+        except Exception:
+            pass
     if len(expected) % 4 == 1:
         # one case in four: the same value is first written to a stream that breaks at its k-th write.  The bytes of the
         # NEXT, successful encode must still be the Kafka encoding (no leftovers of the failed attempt)
